@@ -205,7 +205,9 @@ def single_assignments(fnode):
             allvals[n.targets[0].id].append(n.value)
 
     def path(v):
-        return isinstance(v, ast.Name) or (isinstance(v, ast.Attribute) and path(v.value))
+        # a name, an attribute path, or an element of one selected by a plain name / constant: an alias of an existing object
+        return isinstance(v, ast.Name) or (isinstance(v, ast.Attribute) and path(v.value)) or \
+            (isinstance(v, ast.Subscript) and path(v.value) and isinstance(v.slice, (ast.Name, ast.Constant)))
 
     def once(k):
         if count[k] == 1:
@@ -269,3 +271,142 @@ def key_removals(node, field):
                 if isinstance(t, ast.Subscript) and isinstance(t.value, ast.Attribute) and t.value.attr == field:
                     out.append((n, t.slice))
     return out
+
+
+class Elementwise(object):
+    """What a collection-valued expression does with its source collection: ``source`` (text of the innermost collection
+    expression), whether elements can be dropped (``filtered``), whether the order can change (``reordered``) and the calls
+    applied to each element (``funcs``: texts of callee expressions)."""
+
+    def __init__(self, source, node, filtered=False, reordered=False, funcs=()):
+        self.source = source
+        self.node = node
+        self.filtered = filtered
+        self.reordered = reordered
+        self.funcs = tuple(funcs)
+
+    def __repr__(self):
+        return '<each %s over %s%s%s>' % ('/'.join(self.funcs) or 'id', self.source, ' filtered' if self.filtered else '',
+                                          ' reordered' if self.reordered else '')
+
+
+def elementwise(expr, fnode=None, depth=6):
+    """Recognise ``list(map(F, X))``, ``[F(e) for e in X]``, ``list(F(e) for e in X)``, ``tuple(X)``, ``sorted(X)``, ... as one
+    thing: a pass over the collection X.  Local names assigned once are followed when ``fnode`` is given.  Returns an
+    :class:`Elementwise` (a plain name / attribute / subscript is a pass over itself) or None when the expression is not a
+    single pass over one collection."""
+    if expr is None or depth < 0:
+        return None
+    if fnode is not None:
+        expr = expand_locals(fnode, expr)
+    e = expr
+    if isinstance(e, (ast.Name, ast.Attribute)):
+        return Elementwise(unparse(e), e)
+    if isinstance(e, ast.Subscript):
+        if isinstance(e.slice, ast.Slice):
+            inner = elementwise(e.value, None, depth - 1)
+            if inner is None:
+                return None
+            s = e.slice
+            whole = s.lower is None and s.upper is None
+            rev = s.step is not None and not (isinstance(s.step, ast.Constant) and s.step.value == 1)
+            return Elementwise(inner.source, inner.node, inner.filtered or not whole or (rev and unparse(s.step) != '-1'),
+                               inner.reordered or rev, inner.funcs)
+        return Elementwise(unparse(e), e)
+    if isinstance(e, ast.Call):
+        nm = call_name(e)
+        if isinstance(e.func, ast.Name) and nm in ('list', 'tuple', 'iter') and len(e.args) == 1 and not e.keywords:
+            return elementwise(e.args[0], None, depth - 1)
+        if isinstance(e.func, ast.Name) and nm in ('sorted', 'reversed', 'set', 'frozenset') and e.args:
+            inner = elementwise(e.args[0], None, depth - 1)
+            if inner is None:
+                return None
+            return Elementwise(inner.source, inner.node, inner.filtered or nm in ('set', 'frozenset'), True, inner.funcs)
+        if isinstance(e.func, ast.Name) and nm == 'map' and len(e.args) == 2:
+            inner = elementwise(e.args[1], None, depth - 1)
+            if inner is None:
+                return None
+            return Elementwise(inner.source, inner.node, inner.filtered, inner.reordered, inner.funcs + (unparse(e.args[0]),))
+        if isinstance(e.func, ast.Name) and nm == 'filter' and len(e.args) == 2:
+            inner = elementwise(e.args[1], None, depth - 1)
+            if inner is None:
+                return None
+            return Elementwise(inner.source, inner.node, True, inner.reordered, inner.funcs)
+        if isinstance(e.func, ast.Name) and nm == 'enumerate' and e.args:
+            return elementwise(e.args[0], None, depth - 1)
+        if isinstance(e.func, ast.Attribute) and nm == 'keys' and not e.args:
+            return elementwise(e.func.value, None, depth - 1)       # iterating a mapping iterates its keys
+        if isinstance(e.func, ast.Attribute) and nm == 'copy' and not e.args:
+            return elementwise(e.func.value, None, depth - 1)
+        if isinstance(e.func, ast.Attribute) and not e.args and not e.keywords:
+            return Elementwise(unparse(e), e)                        # an accessor such as data.component_ids()
+        return None
+    if isinstance(e, ast.BinOp):
+        return Elementwise(unparse(e), e)                            # a collection put together from parts: a source of its own
+    if isinstance(e, (ast.ListComp, ast.GeneratorExp, ast.SetComp)):
+        if len(e.generators) != 1:
+            return None
+        g = e.generators[0]
+        inner = elementwise(g.iter, None, depth - 1)
+        if inner is None:
+            return None
+        funcs = []
+        for c in ast.walk(e.elt):
+            if isinstance(c, ast.Call):
+                funcs.append(unparse(c.func))
+        return Elementwise(inner.source, inner.node, inner.filtered or bool(g.ifs), inner.reordered or isinstance(e, ast.SetComp),
+                           inner.funcs + tuple(funcs))
+    return None
+
+
+def element_cases(fnode, expr):
+    """How a list is put together element by element from ONE pass over a source collection, whichever way it is written:
+
+        out = []                                  out = [A if c else B for x in src]
+        for x in src:
+            if c: out.append(A)
+            else: out.append(B)
+
+    -> (source text, target text, [(condition formula, value node)], filtered?) or None.  ``expr`` is the list expression or the
+    name of the local list.  Conditions are formulas of sa/cond.py over the loop variables."""
+    from . import cond
+    e = expr
+    if isinstance(e, ast.Name):
+        defs = [st for st in ast.walk(fnode) if isinstance(st, ast.Assign) and len(st.targets) == 1 and isinstance(st.targets[0], ast.Name)
+                and st.targets[0].id == e.id]
+        if len(defs) == 1 and not (isinstance(defs[0].value, ast.List) and not defs[0].value.elts):
+            return element_cases(fnode, defs[0].value)
+        if len(defs) == 1:
+            # filled by appends in one loop
+            loops = [lp for lp in ast.walk(fnode) if isinstance(lp, (ast.For,)) and
+                     any(isinstance(c, ast.Call) and isinstance(c.func, ast.Attribute) and c.func.attr == 'append' and
+                         isinstance(c.func.value, ast.Name) and c.func.value.id == e.id for c in ast.walk(lp))]
+            outer = [lp for lp in loops if not any(lp is not o and any(lp is x for x in ast.walk(o)) for o in loops)]
+            if len(outer) != 1:
+                return None
+            lp = outer[0]
+            cases = []
+            for st in ast.walk(lp):
+                if isinstance(st, ast.Expr) and isinstance(st.value, ast.Call) and isinstance(st.value.func, ast.Attribute) and \
+                        st.value.func.attr == 'append' and isinstance(st.value.func.value, ast.Name) and st.value.func.value.id == e.id \
+                        and len(st.value.args) == 1:
+                    pc = cond.path_condition(fnode, st)
+                    cases.append((pc if pc is not None else ('const', True), st.value.args[0]))
+            return unparse(lp.iter), unparse(lp.target), cases, False
+        return None
+    if isinstance(e, ast.Call) and isinstance(e.func, ast.Name) and e.func.id in ('tuple', 'list') and len(e.args) == 1:
+        return element_cases(fnode, e.args[0])
+    if isinstance(e, (ast.ListComp, ast.GeneratorExp)) and len(e.generators) == 1:
+        g = e.generators[0]
+        cases = []
+
+        def split(v, c):
+            if isinstance(v, ast.IfExp):
+                t = cond.formula(v.test)
+                split(v.body, cond.And(c, t))
+                split(v.orelse, cond.And(c, cond.Not(t)))
+            else:
+                cases.append((c, v))
+        split(e.elt, ('const', True))
+        return unparse(g.iter), unparse(g.target), cases, bool(g.ifs)
+    return None
